@@ -621,8 +621,13 @@ func (p *autoNames) init() {
 }
 
 func (p *autoNames) autoName() string {
-	p.autoIdx++
-	return goxAutoPrefix + strconv.Itoa(p.autoIdx)
+	for {
+		p.autoIdx++
+		name := goxAutoPrefix + strconv.Itoa(p.autoIdx)
+		if !p.hasName(name) { // skip names the user declared
+			return name
+		}
+	}
 }
 
 func (p *autoNames) useName(name string) {
